@@ -91,6 +91,9 @@ pub struct WorldSpec {
 	pub feerate: u32,
 	pub deferred: bool,
 	pub connect_style: u8,
+	/// per-node block delivery styles (empty = all use `connect_style`)
+	#[serde(default)]
+	pub node_styles: Vec<u8>,
 }
 
 pub fn connect_style_of(i: u8) -> ConnectStyle {
@@ -139,6 +142,7 @@ impl WorldSpec {
 			keep_images,
 			deferred_monitor: self.deferred,
 			connect_style: connect_style_of(self.connect_style),
+			node_styles: self.node_styles.iter().map(|s| connect_style_of(*s)).collect(),
 			disable_revocation_policy: vec![],
 		});
 		for nd in w.nodes.iter() {
@@ -152,7 +156,7 @@ impl WorldSpec {
 		let mut sim = Sim::new(w);
 		if self.ctype != CType::Static {
 			// anchor channels need on-chain reserves at every node
-			lightning::ln::functional_test_utils::provide_anchor_reserves(&sim.w.nodes);
+			sim.fund_wallets(2);
 		}
 		for (i, (a, b)) in self.topo.channels().iter().enumerate() {
 			let v = self.value_sat[i % self.value_sat.len()];
@@ -206,6 +210,7 @@ pub fn world_spec(topos: Vec<Topology>) -> impl Strategy<Value = WorldSpec> + Cl
 			feerate,
 			deferred,
 			connect_style: cs,
+			node_styles: vec![],
 		})
 }
 
@@ -249,6 +254,20 @@ pub enum Op {
 	ForceClose { chan: u16, by_funder: bool },
 	/// corrupt one byte of the secret of the first revoke_and_ack queued on the link-th non-empty link
 	TamperRevoke { link: u16, byte: u8, xor: u8 },
+	/// mine `blocks` blocks; the first contains mempool transactions chosen by `include`:
+	/// 0 none, 1 all (arrival order; first of conflicting ones wins), 2 all in reverse order (last wins),
+	/// 3 only the `pick`-th one
+	Mine { blocks: u8, include: u8, pick: u16 },
+	/// disconnect `depth` blocks and mine `depth + extra` new ones; `remine`: put the disconnected
+	/// transactions back into the first new block
+	Reorg { depth: u8, extra: u8, remine: bool },
+	/// change how blocks are delivered to one node from now on
+	SetStyle { node: u16, style: u8 },
+	/// serialize the node's ChannelManager as a restart candidate
+	Snapshot { node: u16 },
+	/// restart a node from the snap-th newest manager snapshot (0 = newest) and, per channel, the durable or
+	/// (if `landed`) the latest written monitor image
+	Restart { node: u16, snap: u16, landed: bool },
 }
 
 #[derive(Clone, Debug)]
@@ -269,6 +288,17 @@ pub struct OpWeights {
 	pub pump: u32,
 	pub force_close: u32,
 	pub tamper_revoke: u32,
+	pub mine: u32,
+	pub reorg: u32,
+	pub set_style: u32,
+	pub snapshot: u32,
+	pub restart: u32,
+}
+
+impl OpWeights {
+	pub fn zero() -> OpWeights {
+		OpWeights { send: 0, claim: 0, fail: 0, deliver: 0, flush: 0, events: 0, forwards: 0, disconnect: 0, reconnect: 0, setfee: 0, timer: 0, async_toggle: 0, complete: 0, pump: 0, force_close: 0, tamper_revoke: 0, mine: 0, reorg: 0, set_style: 0, snapshot: 0, restart: 0 }
+	}
 }
 
 pub fn amt_strategy() -> impl Strategy<Value = Amt> + Clone {
@@ -307,6 +337,11 @@ pub fn op_strategy(w: OpWeights) -> impl Strategy<Value = Op> + Clone {
 		(w.pump, Just(Op::Pump).boxed()),
 		(w.force_close, (any::<u16>(), any::<bool>()).prop_map(|(chan, by_funder)| Op::ForceClose { chan, by_funder }).boxed()),
 		(w.tamper_revoke, (any::<u16>(), 0u8..32, 1u8..=255).prop_map(|(link, byte, xor)| Op::TamperRevoke { link, byte, xor }).boxed()),
+		(w.mine, (prop_oneof![Just(1u8), 1u8..8, 1u8..30], 0u8..4, any::<u16>()).prop_map(|(blocks, include, pick)| Op::Mine { blocks, include, pick }).boxed()),
+		(w.reorg, (1u8..=6, 0u8..3, any::<bool>()).prop_map(|(depth, extra, remine)| Op::Reorg { depth, extra, remine }).boxed()),
+		(w.set_style, (any::<u16>(), 0u8..11).prop_map(|(node, style)| Op::SetStyle { node, style }).boxed()),
+		(w.snapshot, any::<u16>().prop_map(|node| Op::Snapshot { node }).boxed()),
+		(w.restart, (any::<u16>(), prop_oneof![Just(0u16), 0u16..4, any::<u16>()], any::<bool>()).prop_map(|(node, snap, landed)| Op::Restart { node, snap, landed }).boxed()),
 	];
 	v.retain(|(w, _)| *w > 0);
 	proptest::strategy::Union::new_weighted(v)
@@ -356,7 +391,7 @@ pub fn apply(sim: &mut Sim, spec: &WorldSpec, op: &Op) -> &'static str {
 			}
 			// amount is what the recipient gets only on direct payments; for multi-hop scale down so fees fit
 			let a = if chans.len() > 1 { (a / 2).max(1) } else { a };
-			let idx = sim.send(*from, chans, a);
+			let Some(idx) = sim.try_send(*from, chans, a) else { return "send-skipped" };
 			if sim.pays[idx].state == PayState::Refused {
 				"send-refused"
 			} else {
@@ -538,6 +573,55 @@ pub fn apply(sim: &mut Sim, spec: &WorldSpec, op: &Op) -> &'static str {
 			}
 			sim.rec(SEvent::Tamper { from: f, to: t, secret });
 			"tamper-revoke"
+		},
+		Op::Mine { blocks, include, pick: p } => {
+			let mut txs: Vec<bitcoin::Transaction> = sim.chain.mempool.clone();
+			match include {
+				0 => txs.clear(),
+				1 => {},
+				2 => txs.reverse(),
+				_ => {
+					if !txs.is_empty() {
+						let i = pick(*p, txs.len());
+						txs = vec![txs[i].clone()];
+					}
+				},
+			}
+			sim.mine_block(txs);
+			for _ in 1..*blocks {
+				sim.mine_block(vec![]);
+			}
+			"mine"
+		},
+		Op::Reorg { depth, extra, remine } => {
+			let d = (*depth as u32).min(sim.chain.height().saturating_sub(sim.min_reorg_floor));
+			if d == 0 {
+				return "reorg-skipped";
+			}
+			let before = sim.chain.disconnected_txs.len();
+			sim.reorg_disconnect(d);
+			let txs: Vec<bitcoin::Transaction> = if *remine { sim.chain.disconnected_txs[before..].iter().rev().cloned().collect() } else { vec![] };
+			sim.mine_block(txs);
+			for _ in 1..(d + *extra as u32) {
+				sim.mine_block(vec![]);
+			}
+			"reorg"
+		},
+		Op::SetStyle { node, style } => {
+			let i = pick(*node, n);
+			*sim.w.nodes[i].connect_style.borrow_mut() = connect_style_of(*style);
+			"set-style"
+		},
+		Op::Snapshot { node } => {
+			sim.snapshot_manager(pick(*node, n));
+			"snapshot"
+		},
+		Op::Restart { node, snap, landed } => {
+			let i = pick(*node, n);
+			match sim.restart(i, *snap, *landed) {
+				Ok(()) => "restart",
+				Err(_) => "restart-failed",
+			}
 		},
 		Op::Pump => {
 			for _ in 0..50 {
